@@ -73,6 +73,7 @@ def run(ctx):
                 hist.append((f, lim, history(rng, f, rng.range(4, 25), corrupt=v), v is not None))
     lines = ["dops %s %d %s" % (f["dt"], lim, " ".join(with_probes(ops))) for (f, lim, ops, _) in hist]
     ans = C.harness(lines, timeout=2400)
+    D.compare_dops(ctx, lines, ans, 'dops(history)')
     twin_lines, twin_info = [], []
     for (f, lim, ops, corrupted), line, a in zip(hist, lines, ans):
         toks = D.split_tokens(a)
